@@ -27,6 +27,9 @@ class ElementProgram:
             tokenizer = self.tokenizers[mode]
         tokens = tokenizer(source, filename)
 
+        # The text that token positions refer to.
+        self.source = source
+
         if mode == "text":
             # In text mode, the source is text whatever it looks like
             # (it must not be mistaken for markup when it starts with
